@@ -292,7 +292,9 @@ MUT={
 	return me.current""")],
  'c10-bind-nolock': [(B,"""	gb.mu.Lock()
 	defer gb.mu.Unlock()
-	if _, found := gb.scRefs[sc]; !found {""","""	if _, found := gb.scRefs[sc]; !found {""")],
+	sc := ref.subConn
+	if _, found := gb.scRefs[sc]; !found {""","""	sc := ref.subConn
+	if _, found := gb.scRefs[sc]; !found {""")],
  'c10-notify-nolock': [(G,"""	mc.gme.mu.RLock()
 	for _, me := range mc.gme.mes {
 		me.SetEndpointAvailability(mc.endpoint, state == connectivity.Ready)
@@ -301,10 +303,14 @@ MUT={
 		me.SetEndpointAvailability(mc.endpoint, state == connectivity.Ready)
 	}""")],
  'c10-rr-state-nolock': [(B,"""	gb.mu.RLock()
+	scRef := gb.scRefList[atomic.AddUint32(&gb.rrRefId, 1)%uint32(len(gb.scRefList))]
 	if state := gb.scStates[scRef.subConn]; state == connectivity.Ready {
 		gb.mu.RUnlock()
 		return scRef
-	} else {""","""	if state := gb.scStates[scRef.subConn]; state == connectivity.Ready {
+	} else {""","""	gb.mu.RLock()
+	scRef := gb.scRefList[atomic.AddUint32(&gb.rrRefId, 1)%uint32(len(gb.scRefList))]
+	gb.mu.RUnlock()
+	if state := gb.scStates[scRef.subConn]; state == connectivity.Ready {
 		return scRef
 	} else {
 		gb.mu.RLock()""")],
